@@ -13,7 +13,7 @@ open Bpmn.Model.Xml
 def WF (S : Schema) : Prop := wfB S = true
 def PrefixesDeclared (S : Schema) : Prop := prefixesDeclaredB S = true
 def XsiDeclared (S : Schema) : Prop := xsiDeclaredB S = true
-def NoValueStructFields (S : Schema) : Prop := valueStructFields S = []
+def NoValueExprFields (S : Schema) : Prop := valueExprFields S = []
 
 /-- the full statement of C15 on the model, kept visible. (a) round trip; (b) serialising leaves
 the model alone up to text trimming, and is a function of the model only; (c) the generated
@@ -144,14 +144,14 @@ def miniDoc2 : Node :=
 id, language, text and formal kind are all lost — although `xsi` is declared and the table is
 well-formed. -/
 theorem C15_counterexample_value_field :
-    xsiDeclaredB (mini2 false) = true ∧ wfB (mini2 false) = true ∧ valueStructFields (mini2 false) ≠ [] ∧
+    xsiDeclaredB (mini2 false) = true ∧ wfB (mini2 false) = true ∧ valueExprFields (mini2 false) ≠ [] ∧
     parse (mini2 false) (marshal (mini2 false) id miniDoc2) =
       some (.mk 0 [some "D"] [[.mk 1 [some "a1"] [[.mk 4 [none] [] ""]] ""]] "") := by
   refine ⟨by decide, by decide, by decide, by rfl⟩
 
 /-- with a value receiver the same document round-trips -/
 theorem mini2_roundtrip_by_value :
-    valueStructFields (mini2 true) = [] ∧
+    valueExprFields (mini2 true) = [] ∧
     parse (mini2 true) (marshal (mini2 true) id miniDoc2) = some (norm (mini2 true) id [] miniDoc2) := by
   refine ⟨by decide, by rfl⟩
 
